@@ -767,6 +767,11 @@ enum Fault {
     /// rename an item file to the well-formed name of another range with the SAME start, keeping the length and crc
     /// fields (the one kind of forged name the code can tell: the chunk table inside no longer fits the range)
     RenameRange { path: String, to: String },
+    /// rename an item file to the well-formed name of a range with ANOTHER start (same width, length and crc fields),
+    /// or move it unchanged into the directory of another key: the format checksums header and data, not key or
+    /// range, so these the code cannot tell (recorded as a known finding: a hit returns the other range's / key's bytes)
+    RenameShift { path: String, to: String },
+    MoveToKey { path: String, to: String },
     PlantFile { path: String, size: usize },
     PlantDir { path: String },
 }
@@ -806,7 +811,10 @@ fn apply_fault(root: &Path, f: &Fault) {
                 let _ = std::fs::remove_file(&p);
             }
         },
-        Fault::Rename { path, to } | Fault::RenameRange { path, to } => {
+        Fault::Rename { path, to } | Fault::RenameRange { path, to } | Fault::RenameShift { path, to } | Fault::MoveToKey { path, to } => {
+            if let Some(parent) = root.join(to).parent() {
+                let _ = std::fs::create_dir_all(parent);
+            }
             let _ = std::fs::rename(root.join(path), root.join(to));
         },
         Fault::PlantFile { path, size } => {
@@ -857,6 +865,19 @@ fn faults_for(template: &Path, tier: Tier) -> Vec<Fault> {
             for new_end in start + 1..=4 {
                 if new_end != end {
                     v.push(Fault::RenameRange { path: f.clone(), to: format!("{parent}/{}", item_file_name(&ChunkRange { start, end: new_end }, len, crc)) });
+                }
+            }
+            // the same width at another start
+            v.push(Fault::RenameShift { path: f.clone(), to: format!("{parent}/{}", item_file_name(&ChunkRange { start: start + 1, end: end + 1 }, len, crc)) });
+            if start > 0 {
+                v.push(Fault::RenameShift { path: f.clone(), to: format!("{parent}/{}", item_file_name(&ChunkRange { start: start - 1, end: end - 1 }, len, crc)) });
+            }
+            // the same file under the other key's directory
+            for k in 0..NK {
+                let kd = key_dir_name(&key(k));
+                let dest = format!("{}/{kd}", &kd[..2]);
+                if dest != parent {
+                    v.push(Fault::MoveToKey { path: f.clone(), to: format!("{dest}/{}", Path::new(f).file_name().unwrap().to_string_lossy()) });
                 }
             }
         }
@@ -967,7 +988,7 @@ fn damage(tier: Tier, scratch: &Path, out: &mut Partial) -> u64 {
                 }
             }
             // a renamed item and then the same items put again (the put meets the renamed item as a covering match)
-            if matches!(f, Fault::RenameRange { .. }) {
+            if matches!(f, Fault::RenameRange { .. } | Fault::RenameShift { .. } | Fault::MoveToKey { .. }) {
                 cases.push((bi, f.clone(), false, cap, true));
             }
             // deletion also while the cache is open
@@ -1000,7 +1021,19 @@ fn damage(tier: Tier, scratch: &Path, out: &mut Partial) -> u64 {
                     }
                     let replay = json!({"part": "damage", "base": bases[*bi].iter().map(|o| o.to_json()).collect::<Vec<_>>(), "base_index": bi, "fault_index": i, "fault": fault.to_json(), "while_open": while_open, "reopen_capacity": rcap, "reput": reput});
                     let mut reputs = 0u64;
-                    let mut report = |sig: String, w: String| p.violation(&sig, format!("base {:?} fault {fault:?} (while open: {while_open}, re-opened with capacity {rcap}, items put again: {reput}): {w}", bases[*bi]), replay.clone());
+                    // wrong data behind a forged name the format cannot tell is one specific, recorded finding per kind
+                    let forged = match fault {
+                        Fault::RenameShift { .. } => Some("@item-renamed-to-another-start"),
+                        Fault::MoveToKey { .. } => Some("@item-moved-to-another-key"),
+                        _ => None,
+                    };
+                    let mut report = |sig: String, w: String| {
+                        let sig = match forged {
+                            Some(sfx) if sig == "C12/hit-returns-wrong-data" => format!("{sig}{sfx}"),
+                            _ => sig,
+                        };
+                        p.violation(&sig, format!("base {:?} fault {fault:?} (while open: {while_open}, re-opened with capacity {rcap}, items put again: {reput}): {w}", bases[*bi]), replay.clone())
+                    };
                     let cache = if *while_open {
                         let c = open(&dir, *rcap);
                         apply_fault(&dir, fault);
@@ -1224,7 +1257,7 @@ fn main() {
     run.set("traces_validated_against_impl", json!(transitions + schedules + dmg));
     run.assume("sequential consistency at switch-point granularity: switch points are the hooked acquisitions of DiskCache's state lock and every path-based file-system call under the cache root (libc interposition); fd-based reads/writes touch thread-private files and are not switch points; disk.rs contains no unsafe code");
     run.assume("eviction victims are an environment choice over a canonically sorted candidate list (hook H2); every choice is enumerated");
-    run.assume("chunk universe: 2 keys x 3 chunks with fixed per-(key,chunk) bytes, so every stored range of a key is mutually consistent; renames that keep length+CRC and forge another START (or another key) are outside the damage alphabet (undetectable by design: the format checksums header and data, not key or range); renames to a narrower or wider range with the same start are in it");
+    run.assume("chunk universe: 2 keys x 3 chunks with fixed per-(key,chunk) bytes, so every stored range of a key is mutually consistent; renames that keep length+CRC are in the damage alphabet: to a narrower or wider range with the same start (the code can tell), to another start and into another key's directory (it cannot: the format checksums header and data, not key or range; the wrong data behind those is a recorded known finding); planted files with a consistent name of their own are not in it");
     vcore::vfs::unwatch();
     let evaluations = transitions + schedules + dmg;
     run.all = out;
